@@ -132,7 +132,7 @@ Proof.
     { intros x Hx. apply (label_star_free host); [assumption | rewrite Eh; right; assumption]. }
     destruct (str_eqb lm [STAR]).
     + intros [= E]. apply andb_true_iff in E as [_ E]. eauto.
-    + destruct (starts_with XN lm || starts_with XN host).
+    + destruct (starts_with XN (ascii_lower lm) || starts_with XN (ascii_lower host)).
       * intros [= E]. auto.
       * intros [= E]. apply andb_true_iff in E as [_ E]. eauto.
 Qed.
@@ -163,7 +163,7 @@ Qed.
 (* wildcards inside an IDN A-label are not wildcards *)
 Theorem reject_wildcard_in_alabel dn host lm rem :
   count_star host = 0%nat ->
-  split_dot dn = lm :: rem -> starts_with XN lm = true -> (0 < count_star lm)%nat ->
+  split_dot dn = lm :: rem -> starts_with XN (ascii_lower lm) = true -> (0 < count_star lm)%nat ->
   dnsname_match dn host <> DMatch true.
 Proof.
   intros Hh Hs Hx Hw. unfold dnsname_match. destruct dn as [|c dn']; [discriminate|]. rewrite Hs.
